@@ -34,6 +34,7 @@ func (v *VerifInformer) CachedObjects() []kemtypes.ObjectAndFilterResult {
 	return v.ei.getCachedObjects()
 }
 func (v *VerifInformer) EnableKubeEventCb() { v.ei.enableKubeEventCb() }
+func (v *VerifInformer) DropSavedEvents()   { v.ei.dropSavedEvents() }
 
 // State projects the informer's protected state (takes both locks briefly).
 func (v *VerifInformer) State() (cache map[string]string, buf []kemtypes.KubeEvent, enabled bool) {
